@@ -377,6 +377,38 @@ def hist_main(specfile, cfgjson, out):
             t.start()
         for t in ths:
             t.join()
+    # construction arguments stay the caller's: editing the filter arrays a module was built from must not
+    # change what the module computes (single-threaded histories only)
+    alias_checked = 0
+    alias_bad = []
+    if nthreads == 1 and not cfg.get('faults'):
+        import pywt
+        import pytorch_wavelets as pw
+        import dtcwt.coeffs as dc
+        w = pywt.Wavelet('db3')
+        b_, q_ = dc.biort('near_sym_a'), dc.qshift('qshift_a')
+        for dt in (torch.float64, torch.float32):
+            npdt = np.float64 if dt == torch.float64 else np.float32
+            builders = [
+                ('DWTForward', lambda a: pw.DWTForward(J=2, wave=(a[0], a[1]), mode='zero'), [w.dec_lo, w.dec_hi], [2, 2, 12, 12], False),
+                ('DWT1DForward', lambda a: pw.DWT1DForward(J=2, wave=(a[0], a[1]), mode='zero'), [w.dec_lo, w.dec_hi], [2, 2, 24], False),
+                ('DWTInverse', lambda a: pw.DWTInverse(wave=(a[0], a[1]), mode='zero'), [w.rec_lo, w.rec_hi], [2, 2, 12, 12], True),
+                ('DWT1DInverse', lambda a: pw.DWT1DInverse(wave=(a[0], a[1]), mode='zero'), [w.rec_lo, w.rec_hi], [2, 2, 24], True),
+                ('DTCWTForward', lambda a: pw.DTCWTForward(biort=(a[0], a[1]), qshift=(a[2], a[3], a[4], a[5]), J=2),
+                 [b_[0], b_[2], q_[0], q_[1], q_[4], q_[5]], [1, 2, 8, 8], False),
+            ]
+            for name, ctor, taps, shape, inverse in builders:
+                arrs_ = [np.array(t, dtype=npdt) for t in taps]
+                with clock:
+                    with util.default_dtype(dt):
+                        m_ = ctor(arrs_)
+                before = {k_: v_.detach().clone() for k_, v_ in m_.state_dict().items()}
+                for a_ in arrs_:
+                    a_ *= -2.0
+                alias_checked += 1
+                ch = [k_ for k_, v_ in m_.state_dict().items() if not torch.equal(v_, before[k_])]
+                if ch:
+                    alias_bad.append('%s (%s): buffers %s follow later edits of the caller filter arrays' % (name, dt, ch))
     # late check: tensors returned earlier must still hold what they held when they were returned
     late_checked, late_bad = 0, []
     for tid, lst in kept.items():
@@ -386,6 +418,8 @@ def hist_main(specfile, cfgjson, out):
             if now != digs:
                 late_bad.append({'thread': tid, 'detail': 'a tensor returned earlier in the history changed its contents afterwards'})
     generic = attach.drain()
+    for ab in alias_bad[:5]:
+        generic.append({'monitor': 'M-ALIAS', 'where': 'construction', 'detail': ab, 'thread': 'hist-0'})
     for lb in late_bad[:5]:
         generic.append({'monitor': 'M-HIST.late', 'where': 'returned tensors', 'detail': lb['detail'], 'thread': str(lb['thread'])})
     sig = hashlib.sha1(json.dumps([(e['thread'], e['spec'], e['ev']) for e in events]).encode()).hexdigest()[:16]
@@ -405,7 +439,7 @@ def hist_main(specfile, cfgjson, out):
     except Exception:
         pass
     json.dump({'cfg': cfg, 'events': events, 'generic': generic, 'signature': sig, 'overlapping_calls': overlaps,
-               'late_checked': late_checked, 'inject': inject.stats(), 'monitor_counts': dict(attach.COUNTS), 'mutating_ops': dict(attach.MUTATING),
+               'late_checked': late_checked, 'alias_checked': alias_checked, 'inject': inject.stats(), 'monitor_counts': dict(attach.COUNTS), 'mutating_ops': dict(attach.MUTATING),
                'ops_seen': int(sum(attach.CENSUS.values())), 'cache': cache, 'wall': time.time() - t0},
               open(out, 'w'), default=str)
 
@@ -532,6 +566,11 @@ def driver(tier, seed, t0):
             if not any(g['monitor'] == 'M-HIST.late' for g in d['generic']):
                 results.append(res(HELD, {'history': i, 'threads': hc['threads'], 'returned_tensors_reexamined': d['late_checked']},
                                    'M-HIST.late', 'contents unchanged at the end of the history', ratio=0.0))
+        if d.get('alias_checked'):
+            mcounts['M-ALIAS'] = mcounts.get('M-ALIAS', 0) + d['alias_checked']
+            if not any(g['monitor'] == 'M-ALIAS' for g in d['generic']):
+                results.append(res(HELD, {'history': i, 'modules_built_from_caller_arrays': d['alias_checked']}, 'M-ALIAS',
+                                   'buffers independent of the caller arrays', ratio=0.0))
         for m in ('M-ARG', 'M-INV', 'M-DISP', 'M-CACHE', 'M-GLOBAL'):
             n = d['monitor_counts'].get(m, 0)
             bad = sum(1 for g in d['generic'] if g['monitor'].startswith(m))
